@@ -361,6 +361,42 @@ func (c *Ctx) benignCall(in ssa.Instruction) bool {
 // effectFreeFrom checks that from the given edges to function exit no instruction with an
 // effect is executed: only benign calls, no stores to heap fields, no map updates, no sends,
 // no go statements. Returns the first offending instruction.
+// effectFreeFromNil is effectFreeFrom on nil-feasible paths (a refusal kept in a local and tested
+// for nil before the single reply/return).
+func (c *Ctx) effectFreeFromNil(fn *ssa.Function, edges map[core.Edge]bool) ssa.Instruction {
+	if bad := c.effectFreeFrom(fn, edges, nil); bad == nil {
+		return nil
+	}
+	var hit ssa.Instruction
+	res := core.NilWalk(fn, edges, nil, nil, func(in ssa.Instruction, _ core.NilFacts) {
+		if hit == nil && c.isEffectInstr(in) {
+			hit = in
+		}
+	})
+	if res.Overflow {
+		return c.effectFreeFrom(fn, edges, nil)
+	}
+	return hit
+}
+
+func (c *Ctx) isEffectInstr(in ssa.Instruction) bool {
+	switch x := in.(type) {
+	case *ssa.Call, *ssa.Defer:
+		return !c.benignCall(in)
+	case *ssa.Go, *ssa.Send, *ssa.MapUpdate:
+		return true
+	case *ssa.Select:
+		for _, st := range x.States {
+			if st.Dir == types.SendOnly {
+				return true
+			}
+		}
+	case *ssa.Store:
+		return !rootsInAlloc(x.Addr)
+	}
+	return false
+}
+
 func (c *Ctx) effectFreeFrom(fn *ssa.Function, edges map[core.Edge]bool, cut map[core.Edge]bool) ssa.Instruction {
 	isEffect := func(in ssa.Instruction) bool {
 		switch x := in.(type) {
@@ -643,4 +679,29 @@ func stringConstsOf(v ssa.Value) []string {
 		}
 	}
 	return out
+}
+
+// errValueOf: the SSA value carrying the error result of a call (the call itself for a single
+// result, the Extract of the error index otherwise); nil when it is not used.
+func errValueOf(site ssa.CallInstruction) ssa.Value {
+	v, ok := site.(ssa.Value)
+	if !ok {
+		return nil
+	}
+	sig := site.Common().Signature()
+	ei := errIndex(sig)
+	if ei < 0 {
+		return nil
+	}
+	if sig.Results().Len() == 1 {
+		return v
+	}
+	if refs := v.Referrers(); refs != nil {
+		for _, ref := range *refs {
+			if ex, ok := ref.(*ssa.Extract); ok && ex.Index == ei {
+				return ex
+			}
+		}
+	}
+	return nil
 }
